@@ -16,9 +16,9 @@ MORE = {
  "C04": ("Also decided: migration writes and keeps only references handed out by the target store; every item of the stored, migrated and "
          "serialised node encodings has its own write site and its own enforced read site; tag-byte bits and the inline/indirect boundary "
          "agree between writers and readers; odd stems mask their padding nibble. Round 2: the marked-as-modified and freeze rules are shared with C03 (a changed node that keeps its origin is frozen as its old self); freeze_value reports a freshly created link as changed.", "format item tables with bipartite matching of items to sites"),
- "C05": ("Also decided: group elements and scalars are decoded with the validating canonical decoders (shared with C20). Round 2: presence bits read their field on the set branch; zero-initialised decoder buffers are filled; counts of short-read primitives are compared with the declared length.", "required/forbidden-callee rules"),
+ "C05": ("Also decided: group elements and scalars are decoded with the validating canonical decoders (shared with C20). Round 2: presence bits read their field on the set branch; zero-initialised decoder buffers are filled; counts of short-read primitives are compared with the declared length. Round 3: a reader limited with take(declared length) is exhausted on every accepting path.", "required/forbidden-callee rules"),
  "C06": ("Also decided: the signature and key maps are iterated whole; no compared length is narrowed; equality tests refuse on difference; "
-         "the number of refusing comparisons does not fall below the frozen count. Round 2: protocol cost constants and the base-cost formula; declared payload size is the size of the encoding; the sign digest is computed after the last header change; the signer uses thresholds as counts; unconditional-check counts.", "sweeps over all verifier-side comparisons"),
+         "the number of refusing comparisons does not fall below the frozen count. Round 2: protocol cost constants and the base-cost formula; declared payload size is the size of the encoding; the sign digest is computed after the last header change; the signer uses thresholds as counts; unconditional-check counts. Round 3: num_keys agrees with what the signer produces.", "sweeps over all verifier-side comparisons"),
  "C07": ("Also decided: statement/response vectors are zipped only after comparing exactly their two lengths; narrowed-length, equality-polarity "
          "and refusing-comparison-floor sweeps. Round 2: transcript entries of public() are unconditional; a response entry missing for a statement key refuses (vcom_eq soundness defect found and fixed); loop-carried weights are updated from themselves.", "sweeps over all verifier-side comparisons"),
  "C08": ("Also decided: statement/proof zips are length-checked; narrowed-length, equality-polarity and refusing-comparison-floor sweeps. Round 2: verifier transcript entries unconditional; tags reach encode_tags with their multiplicity; unconditional-check counts.",
@@ -45,7 +45,7 @@ MORE = {
  "C15": ("Also decided: a lock count becomes count - 1 only under count > 1; an ancestor lock-trie node is freed only when childless and "
          "unlocked; the root pointer is cleared only when the root node is gone; the iterator visits children[i] only under i < len and "
          "resumes at i + 1. Round 2: the lock is recorded on every successful return of insert; the lock query tests every visited node; the iterator descends only through make_owned.", "condition-under-which-reached analysis"),
- "C16": ("Also decided: receive names are cut at the first '.', durations at the first non-digit. Round 2: documented grammar of the name validators; SerialCtx and element-helper pairs; input-driven ranges of fixed-size buffers stay in bounds; a writer arm without the tag of its siblings is a mismatch.", "required-callee rule"),
+ "C16": ("Also decided: receive names are cut at the first '.', durations at the first non-digit. Round 2: documented grammar of the name validators; SerialCtx and element-helper pairs; input-driven ranges of fixed-size buffers stay in bounds; a writer arm without the tag of its siblings is a mismatch. Round 3: length refusals outside the name validators are no stricter than the validators.", "required-callee rule"),
  "C17": ("Also decided: decoders never discard the sign of a decoded integer; the parsed prefix returned by a text segment is inspected; a "
          "fixed-size destination must be filled by what was actually read. Round 2: the filled test accepts equivalent forms; input iterators are exhausted; no unchecked arithmetic on decoded sizes.", "def-use rules"),
  "C18": ("Also decided: every field of the verifier-supplied verification material is read and used; lookups of revealed attributes are "
